@@ -149,6 +149,12 @@ func buildResponse(spec *planSpec, eager bool) (*resolve.GraphQLResponse, *planR
 		if err != nil {
 			return nil, nil, err
 		}
+		if !spec.hasInfo(f.ID) {
+			// plan.Configuration.DisableIncludeInfo (or a hand-built plan): the fetch carries no FetchInfo
+			if sf, ok := item.Fetch.(*resolve.SingleFetch); ok {
+				sf.Info = nil
+			}
+		}
 		resp.RawFetches = append(resp.RawFetches, item)
 	}
 	if spec.Kind == "entity" {
